@@ -5,6 +5,7 @@ import (
 	"os"
 	"reflect"
 	"sort"
+	"strings"
 
 	rt "github.com/nlnwa/whatwg-url/verifrt"
 )
@@ -279,6 +280,14 @@ func lockedPackages() map[string]bool {
 			if pp := t.PkgPath(); pp == "sync" || pp == "sync/atomic" {
 				l[p] = true
 			}
+		}
+	}
+	// ... or whose code (syntactically) uses synchronisation primitives at all: atomics on plain
+	// integers, locks held in struct fields
+	for _, site := range rt.SyncSites {
+		name := rt.SiteNames[site]
+		if i := strings.LastIndex(name, "/"); i >= 0 {
+			l[name[:i]] = true
 		}
 	}
 	return l
